@@ -262,3 +262,93 @@ pub fn stream(run: &mut Run, rng: &mut Rng, n: usize) {
         }
     }
 }
+
+// ---------------------------------------------------------------------------------------------
+// REAL arithmetic: Rust's `a + b`, `a - b`, `a * b`, `a / b`, `a.sqrt()`, `i as f64` (the IEEE-754 operations of the
+// hardware) against the exact integer arithmetic of the Lean model (`Model/FloatArith.lean`), bit for bit (a NaN result is
+// compared as "NaN": payload and sign canonicalised). Driver kind `f64arith`.
+// ---------------------------------------------------------------------------------------------
+
+fn canon_bits(f: f64) -> u64 { if f.is_nan() { 0x7ff8000000000000 } else { f.to_bits() } }
+
+const SPECIAL_BITS: &[u64] = &[0, 0x8000000000000000, 1, 0x8000000000000001, 2, 0x000fffffffffffff, 0x0010000000000000, 0x0010000000000001, 0x001fffffffffffff,
+    0x3ff0000000000000, 0xbff0000000000000, 0x3ff0000000000001, 0x3fefffffffffffff, 0x4000000000000000, 0x3fe0000000000000, 0x4008000000000000, 0x4024000000000000,
+    0x4340000000000000, 0x433fffffffffffff, 0x4340000000000001, 0x4330000000000000, 0x7fefffffffffffff, 0xffefffffffffffff, 0x7fe0000000000000, 0x7fdfffffffffffff,
+    0x7ff0000000000000, 0xfff0000000000000, 0x7ff8000000000000, 0xfff8000000000000, 0x7ff0000000000001, 0x7fffffffffffffff, 0xfff4000000000000,
+    0x3fb999999999999a, 0x3fc999999999999a, 0x3fd3333333333333, 0x4002000000000000, 0x5fe0000000000000, 0x1ff0000000000000, 0x2000000000000000, 0x3ca0000000000000, 0x3cb0000000000000];
+
+fn arith_operand(rng: &mut Rng) -> u64 {
+    match rng.below(6) {
+        0 => *rng.pick(SPECIAL_BITS),
+        1 => interesting_bits(rng) | if rng.chance(1, 2) { 1u64 << 63 } else { 0 },
+        2 => ((rng.range(-40, 40) as f64) * 0.25).to_bits(),
+        3 => (rng.range(-1_000_000, 1_000_000) as f64).to_bits(),
+        _ => rng.next(),
+    }
+}
+
+fn emit_arith(run: &mut Run, op: &str, a: u64, b: u64, origin: &str) {
+    let (x, y) = (f64::from_bits(a), f64::from_bits(b));
+    let r = match op { "add" => x + y, "sub" => x - y, "mul" => x * y, "div" => x / y, _ => unreachable!() };
+    let kind = if r.is_nan() { "nan" } else if r.is_infinite() { "inf" } else if r == 0.0 { "zero" } else if r.abs() < f64::MIN_POSITIVE { "subnormal" } else { "normal" };
+    run.count(&format!("f64arith:{}:{}", op, kind));
+    run.case_with_desc(format!("f64arith {} {} {}", op, a, b), format!("ok {}", canon_bits(r)), format!("f64arith:{}:{}:{}", origin, op, kind),
+        format!("f64::from_bits({:#x}) {} f64::from_bits({:#x})", a, op, b));
+}
+
+fn emit_sqrt(run: &mut Run, a: u64, origin: &str) {
+    let r = f64::from_bits(a).sqrt();
+    run.count("f64arith:sqrt");
+    run.case_with_desc(format!("f64arith sqrt {}", a), format!("ok {}", canon_bits(r)), format!("f64arith:{}:sqrt:{}", origin, if r.is_nan() { "nan" } else { "value" }), format!("f64::from_bits({:#x}).sqrt()", a));
+}
+
+fn emit_ofint(run: &mut Run, i: i64, origin: &str) {
+    run.count("f64arith:ofint");
+    run.case_with_desc(format!("f64arith ofint {}", i), format!("ok {}", (i as f64).to_bits()), format!("f64arith:{}:ofint", origin), format!("{} as f64", i));
+}
+
+pub fn arith_stream(run: &mut Run, rng: &mut Rng, n: usize) {
+    const OPS: &[&str] = &["add", "sub", "mul", "div"];
+    // every pair of special patterns under every operation
+    for a in SPECIAL_BITS { for b in SPECIAL_BITS { for op in OPS { if rng.chance(1, 2) || *a >= 0x7ff0000000000000 || *b == 0 { emit_arith(run, op, *a, *b, "special"); } } } }
+    for a in SPECIAL_BITS { emit_sqrt(run, *a, "special"); }
+    for i in [0i64, 1, -1, i64::MAX, i64::MIN, i64::MAX - 1, i64::MIN + 1, (1 << 53) - 1, 1 << 53, (1 << 53) + 1, (1 << 53) + 2, (1 << 53) + 3, -(1 << 53) - 1, (1 << 54) + 2, (1 << 54) + 6, (1 << 62) + (1 << 9), (1 << 62) + (1 << 9) + 1, 1000, 719163 * 86400000] { emit_ofint(run, i, "special"); }
+    for i in 0..n {
+        match i % 10 {
+            0 => {
+                // halfway sums: b is half a unit in the last place of a (the sum is a tie), and its neighbours
+                let a = interesting_bits(rng);
+                let ef = (a >> 52) & 0x7ff;
+                if ef >= 54 && ef < 0x7ff {
+                    let half = (ef - 53) << 52;       // 2^(e-53) = half an ulp of a
+                    for d in [0i64, 1, -1] { let b = (half as i64 + d) as u64; emit_arith(run, "add", a, b, "halfway"); emit_arith(run, "sub", a, b, "halfway"); emit_arith(run, "add", a | (1 << 63), b, "halfway"); }
+                }
+            }
+            1 => {
+                // cancellation: operands agreeing in most leading bits
+                let a = interesting_bits(rng);
+                let b = a ^ (rng.next() & ((1u64 << rng.below(30)) - 1));
+                emit_arith(run, "sub", a, b, "cancel"); emit_arith(run, "add", a, b | (1 << 63), "cancel"); emit_arith(run, "div", a, b, "cancel");
+            }
+            2 => {
+                // products / quotients at the overflow and underflow thresholds
+                let a = (((rng.below(2046) + 1) as u64) << 52) | (rng.next() & ((1u64 << 52) - 1));
+                let ea = ((a >> 52) & 0x7ff) as i64;
+                let target = *rng.pick(&[2046i64, 2047, 2045, 1, 0, -1, -30, -52, -53, -54]);
+                let eb_mul = target - ea + 1023; let eb_div = ea - target + 1023;
+                for eb in [eb_mul, eb_div] { if eb >= 0 && eb < 2047 { let b = ((eb as u64) << 52) | (rng.next() & ((1u64 << 52) - 1)); emit_arith(run, "mul", a, b, "threshold"); emit_arith(run, "div", a, b, "threshold"); } }
+            }
+            3 => { let a = arith_operand(rng) & 0x7fff_ffff_ffff_ffff; emit_sqrt(run, a, "random"); let k = rng.below(2001) as u64; emit_sqrt(run, ((k * k) as f64).to_bits(), "square");
+                   let r = f64::from_bits(interesting_bits(rng)); let sq = r * r; if sq.is_finite() { emit_sqrt(run, sq.to_bits(), "squared"); emit_sqrt(run, sq.to_bits() + 1, "squared"); emit_sqrt(run, sq.to_bits().wrapping_sub(1), "squared"); } }
+            4 => { let i = match rng.below(4) { 0 => rng.next() as i64, 1 => (1i64 << (52 + rng.below(11))) + rng.range(-3, 3), 2 => -((1i64 << (52 + rng.below(11))) + rng.range(-3, 3)), _ => rng.range(-1_000_000, 1_000_000) }; emit_ofint(run, i, "random"); }
+            5 => {
+                // subnormal operands and results
+                let a = rng.next() & ((1u64 << 52) - 1) | if rng.chance(1, 2) { 1 << 63 } else { 0 };
+                let b = match rng.below(3) { 0 => rng.next() & ((1u64 << 53) - 1), 1 => arith_operand(rng), _ => ((1023 - rng.below(60) as u64) << 52) | (rng.next() & ((1u64 << 52) - 1)) };
+                for op in OPS { emit_arith(run, op, a, b, "subnormal"); }
+                emit_arith(run, "div", b, a, "subnormal");
+            }
+            _ => { let (a, b) = (arith_operand(rng), arith_operand(rng)); let op = *rng.pick(OPS); emit_arith(run, op, a, b, "random"); }
+        }
+    }
+}
